@@ -2,7 +2,7 @@
 import math, itertools
 import numpy as np
 from hypothesis import strategies as st
-from vlib import strat as S, oracles as O
+from vlib import strat as S, oracles as O, harness
 
 ID = "C11"
 EXHAUSTIVE = True
@@ -77,7 +77,7 @@ def exhaustive(ctx, tier):
     npix = 0
     for o in itertools.product([-1, 0, 1], repeat=4):
         ctx.begin({"exhaustive-orientation": list(o)})
-        npix += exhaustive_one(ctx, o)
+        npix += harness.guarded_call(ctx, exhaustive_one, ctx, o) or 0
     ctx.extra["exhaustive_pixel_checks"] = npix
 
 
